@@ -132,6 +132,8 @@ def tasks(tier):
                        ("mp_read_box_index_field", ["list1", "list2", "list3", "listN"])):
             for f in fs:
                 out.append(Reader(fn, nd, f))
+    from props.C01_api import api_tasks
+    out += api_tasks(tier)
     return out
 
 
@@ -142,7 +144,8 @@ def canaries(tier):
           ("slice: drop step", [(f, "return data[..., ::step]", "return data")], ["mp_read_box_slice_field[nd=3,slice:a:b:s]"]),
           ("index: wrong skip", [(f, "bf.seek(np.prod(shape[:-1]) * args[2][0] * 8, 1)", "bf.seek(np.prod(shape[:-1]) * args[2][-1] * 8, 1)")],
            ["mp_read_box_index_field[nd=3,list2]"])]
-    return cs if tier == "thorough" else cs[:2]
+    from props.C01_api import api_canaries
+    return (cs if tier == "thorough" else cs[:2]) + api_canaries()
 
 
 # ------------------------------------------------------------------------------------------------------------
